@@ -119,9 +119,15 @@ def run(tier, seed, replay=None):
                         sh = (v.get('res') or {}).get('shares')
                         if v.get('state') in ('created', 'running') and sh is not None and k in before and fsoracle.shares_to_milli(sh) > before[k]['cpureq'] + 1:
                             demand_grew = True
-                    # an allocation can legitimately fail for lack of capacity; it cannot when the container held one
-                    # before the restart and the set of live containers did not grow
-                    if live and c not in hold and c in held_before and not demand_grew and c not in never_admitted and cc is not None and not cc.get('preserve_cpu') and not (sc['policy'] == 'balloons' and cfg.get('preserve') and cc['name'] in cfg['preserve']['matchExpressions'][0]['values']):
+                    # an allocation can legitimately fail for lack of capacity -- re-allocating the same containers in another
+                    # order is a greedy packing and every pool with a container on its shared CPUs keeps one CPU -- so the
+                    # clause is judged only where capacity cannot be the reason: the container held an allocation before, the
+                    # set of live containers did not grow, and what the live containers ask for (1 CPU for a zero request)
+                    # is at most half of the machine
+                    ask = sum(max(x['cpureq'], 1000) for x in rec['cache'] if x['state'] in ('created', 'running'))
+                    ncpu = sum(1 for x in sc['_machine']['cpus'] if x['online'])
+                    slack = 2 * ask <= 1000 * ncpu
+                    if slack and live and c not in hold and c in held_before and not demand_grew and c not in never_admitted and cc is not None and not cc.get('preserve_cpu') and not (sc['policy'] == 'balloons' and cfg.get('preserve') and cc['name'] in cfg['preserve']['matchExpressions'][0]['values']):
                         viol(sc, F('C11', 'sync-allocates-runtime-live', 'live-container-lost-allocation', 'container %s is %s at the runtime and held an allocation before, but holds none after Synchronize (no new live containers)' % (c, lc.get('state')), seq))
                     if live and cc is None and c not in never_admitted:
                         viol(sc, F('C11', 'sync-allocates-runtime-live', 'listed-live-container-not-cached', 'container %s is %s at the runtime (pod %s listed) but is not in the cache after Synchronize' % (c, lc.get('state'), lc.get('pod')), seq))
